@@ -322,7 +322,7 @@ def run(ctx: core.Ctx):
             ctx.traces += 1
             ctx.case(("file", nf))
     ctx.extra["whole_engines"] = nf
-    ctx.exhaustive = True
+    ctx.exhaustive = not ctx.quick      # the quick tier replays a stride of the enumerated cases (TLC checks all of them on the model)
     ctx.rule = (f"{n1} component-wise enumerated engines and {nf} whole engines (seeded random, the 61 shipped examples, perturbed doubles), each under alias 'fl' and one of "
                 "'', '*', 'zz': repr parsed and compared node for node with the specification's tree, executed, rebuilt engine compared (repr, FLL, outputs), every component on its own; "
                 "PythonExporter plain/encapsulated x formatted on a sample")
